@@ -8,6 +8,8 @@ from .. import iban_rules as R
 
 
 def run(ctx, report):
+    from .premises import accessor_entries, stateless_premise
+    stateless_premise(ctx, report, 'R05-P1-stateless', ['iban-validate', 'bic-validate', 'national'], extra=None, stop=())
     # national validation: every algorithm registered for any country (and every German method) on structure-conforming BBANs;
     # runs in forked workers while this process builds the validator models
     from ..algo_eval import struct_positions
